@@ -101,11 +101,18 @@ func chainRows(t *rapid.T, aa bool, n, l int, d nameDom) []gen.Row {
 	rows := make([]gen.Row, n)
 	for i := range rows {
 		var name string
-		switch rapid.IntRange(0, 5).Draw(t, "namekind") {
+		switch rapid.IntRange(0, 6).Draw(t, "namekind") {
 		case 0, 1:
 			name = "s" + strconv.Itoa(i)
 		case 2, 3, 4:
 			name = rapid.SampledFrom(dict).Draw(t, "dict")
+		case 5:
+			// lengths around the widths a writer could pad or cut names to
+			ln := rapid.SampledFrom([]int{9, 10, 11, 15, 16, 24, 25, 26, 30, 31, 40, 64, 100}).Draw(t, "longlen")
+			if d.Strict && ln > 10 {
+				ln = 10
+			}
+			name = gen.SeqN(t, "abcdefghijklmnopqrstuvwxyzABCDEFGHIJKLMNOPQRSTUVWXYZ0123456789_.|", ln)
 		default:
 			max := 14
 			if d.Strict {
